@@ -52,7 +52,7 @@ def render_paths(N, nodes, limit: int = 512, for_zero: bool = False, subst=None,
         key = xs(e)
         if key in names:  # the same expression gets the same identifier everywhere
             return names[key], None
-        name = f"{prefix}{counter[0]}"
+        name = f"{prefix}z{counter[0]}z"  # detectable without word boundaries (C suffixes follow directly: Pz3zUL)
         counter[0] += 1
         names[key] = name
         return name, (name, e)
@@ -70,11 +70,16 @@ def render_paths(N, nodes, limit: int = 512, for_zero: bool = False, subst=None,
                 out = []
                 neg: typing.Tuple = ()
                 branches = [(node.test, node.body)] + [(e.test, e.body) for e in node.elif_]
+                def feasible(p, extra):
+                    have = set(p.conds)
+                    return not any((e, not pol) in have for e, pol in extra)
+
                 for test, body in branches:
-                    pre = [TPath(p.parts, p.conds + neg + ((xs(test), True),), p.ph) for p in paths]
+                    extra = neg + ((xs(test), True),)
+                    pre = [TPath(p.parts, p.conds + extra, p.ph) for p in paths if feasible(p, extra)]
                     out.extend(run(body, pre))
                     neg = neg + ((xs(test), False),)
-                pre = [TPath(p.parts, p.conds + neg, p.ph) for p in paths]
+                pre = [TPath(p.parts, p.conds + neg, p.ph) for p in paths if feasible(p, neg)]
                 out.extend(run(node.else_, pre) if node.else_ else pre)
                 paths = out
             elif isinstance(node, N.For):
